@@ -930,7 +930,9 @@ fn run_isolated_item(case: &Value, item: &Value, s: &mut Summary) {
       for f in fs {
         s.count("isolated.panic-or-hang");
         // the panic site of a size problem is inside std: the parameter names the input class
-        let sig = format!("{}@{label}", f["sig"].as_str().unwrap_or("?"));
+        // (a signature that already names its input class keeps it)
+        let child_sig = f["sig"].as_str().unwrap_or("?");
+        let sig = if child_sig.contains('@') { child_sig.to_string() } else { format!("{child_sig}@{label}") };
         s.fail(&sig, f["what"].as_str().unwrap_or(""), &reported, f["observed"].clone());
       }
     }
